@@ -221,7 +221,7 @@ func collectHists(env *Env, ops []*OpRec, ci *closeInfo) map[string]*histInfo {
 		k := idKey(mv.FullName, mv.Tags)
 		h := hs[k]
 		if h == nil {
-			fs, amb := firstHistSpec(ops, k)
+			fs, amb := firstHistSpec(ops, ci, k)
 			h = &histInfo{key: k, name: mv.FullName, tags: mv.Tags, spec: fs, ambig: amb || mv.AltName != ""}
 			h.til = TilingOf(fs, env.Prog.Cfg.DefBuckets)
 			h.want = make([]int64, h.til.N())
